@@ -269,4 +269,19 @@ def rank3_with_transforms(inp):
     return {'violates': bool(bad), 'detail': bad}
 
 
+def pt_accessor(inp):
+    """what get_mpo_tensor hands out, natively: the ancilla scenarios (rank-4, no transforms), the rank-3 / transform scenarios
+    (non-symmetric complex transforms, in memory and file-backed) and, for the history obligations, read-replace-read"""
+    funcs = [rank3_with_transforms, set_after_get if inp.get('history') else exact_ancilla]
+    if inp.get('history'):
+        funcs.append(exact_ancilla)
+    out = {'violates': False, 'detail': []}
+    for f in funcs:
+        r = f(inp)
+        if r.get('violates'):
+            out['violates'] = True
+            out['detail'].append({f.__name__: r.get('detail')})
+    return out
+
+
 THOROUGH = [('lindbladian', {}, None), ('superoperator_helpers', {}, None), ('exact_ancilla', {}, None), ('set_after_get', {}, None), ('rank3_with_transforms', {}, None), ('order_of_environments', {}, 'c03/order-independent[non-commuting-environments]')]
